@@ -598,8 +598,19 @@ pub fn process<I: BufRead, O: Write>(
                         let mut rex = format!("\\b{}\\(", mcro);
                         let params = caps.get(2).unwrap().as_str();
                         if !params.is_empty() {
-                            for v in caps.get(2).unwrap().as_str().split(',') {
-                                let vx = v.trim_start();
+                            let names: Vec<&str> = params.split(',').map(|v| v.trim()).collect();
+                            for (i, vx) in names.iter().enumerate() {
+                                // Each parameter becomes a named capture group: names are unique
+                                if names[..i].contains(vx) {
+                                    return Err(Error::Syntax {
+                                        filename: filename.clone(),
+                                        included_in: included_in.clone(),
+                                        line,
+                                        msg: format!("Duplicate macro parameter {}", vx),
+                                    });
+                                }
+                            }
+                            for vx in names {
                                 let re = Regex::new(&format!("\\b{}\\b", vx)).unwrap();
                                 value = re.replace_all(&value, format!("$${}", vx)).to_string();
                                 //rex += &format!("(?P<{}>[^,]*?),", vx);
